@@ -14,6 +14,7 @@ R6 width agreement (rules/widths.py): the buffered-bytes total and the memory li
    wide and no value derived from them is converted to fewer bits (a 32-bit total wraps at 4 GiB and
    a larger limit is then never reached).
 R7 closure pairing (rules/closures.py): the sorter's merge function is called and forwarded with its own closure.
+D  rests on: C02 C02.R3 (chunks are sorted and folded with the byte comparison) - re-run here as <id>.D.<rule>.
 """
 import re
 from .common import *
@@ -245,3 +246,6 @@ def run(ctx, res):
     from . import closures
     res.floor("C06.R7", 1)
     closures.check(ctx, res, "C06.R7", ('mtbl_sorter_options',))
+
+    # ---- properties this one rests on (re-run here, labelled <this>.D.<rule>) ------------------
+    depends(ctx, res, 'C02', ('C02.R3',), 'chunks are sorted and folded with the byte comparison')
